@@ -7,15 +7,15 @@ theorem takeU8_cons (a : UInt8) (rest : Bytes) : takeU8 (a :: rest) = some (a, r
 
 theorem takeU16_put (v : UInt16) (rest : Bytes) : takeU16 (putU16le v ++ rest) = some (v, rest) := by
   simp only [putU16le, takeU16, List.cons_append, List.nil_append]
-  congr 2; bv_decide
+  congr 2; bv_decide (timeout := 300)
 
 theorem takeU32_put (v : UInt32) (rest : Bytes) : takeU32 (putU32le v ++ rest) = some (v, rest) := by
   simp only [putU32le, takeU32, List.cons_append, List.nil_append]
-  congr 2; bv_decide
+  congr 2; bv_decide (timeout := 300)
 
 theorem takeU64_put (v : UInt64) (rest : Bytes) : takeU64 (putU64le v ++ rest) = some (v, rest) := by
   simp only [putU64le, takeU64, List.cons_append, List.nil_append]
-  congr 2; bv_decide
+  congr 2; bv_decide (timeout := 300)
 
 theorem takeN_append (l rest : Bytes) (n : Nat) (h : l.length = n) : takeN n (l ++ rest) = some (l, rest) := by
   subst h; simp [takeN]
